@@ -98,7 +98,7 @@ fn step_u(r: &mut Rec, rng: &mut Rng, maxdigits: usize) {
         s = (s + 1) % 4;
     }
     let len = r.g.u[d].verif_raw().len();
-    match rng.below(22) {
+    match rng.below(23) {
         0 | 1 => { r.u_assign("add", "assign_ref", d, s, |x, y| *x += y); }
         2 => { r.u_assign("sub", "assign_ref", d, s, |x, y| *x -= y); }
         3 => {
@@ -167,6 +167,24 @@ fn step_u(r: &mut Rec, rng: &mut Rng, maxdigits: usize) {
             let n = rng.below(maxdigits as u64 / 2) as usize;
             let dg = digits_p(rng, n, &[Pat::Random, Pat::Ones, Pat::Pow2, Pat::LowZeros]);
             load_u(r, d, &dg);
+        }
+        21 => {
+            // constructors fed with redundant leading zero digits (they write registers u2 / i2)
+            let radix = *rng.pick(&[2u32, 8, 10, 16, 32, 36, 64, 128, 256, 3, 255]);
+            let nz = rng.below(140) as usize;
+            let nd = rng.below(5) as usize;
+            let mut be: Vec<u8> = vec![0; nz];
+            be.extend((0..nd).map(|_| rng.below(radix.min(256) as u64) as u8));
+            let le: Vec<u8> = be.iter().rev().cloned().collect();
+            crate::drivers::text::from_radix_all(r, &le, radix, *rng.pick(&[Sign::Plus, Sign::Minus]));
+            if radix <= 36 && !be.is_empty() {
+                let txt: Vec<u8> = be.iter().map(|&x| if x < 10 { b'0' + x } else { b'a' + x - 10 }).collect();
+                crate::drivers::text::parse_all(r, &txt, radix);
+            }
+            obs_u(r, 2, s);
+            twin_u(r, 2);
+            obs_i(r, 2, s);
+            twin_i(r, 2);
         }
         _ => {
             // the result of an operation on other registers
